@@ -93,6 +93,16 @@ var accessors = []accessor{
 	{"IsLiving", tIndi, vt{tBool, 0}, func(v interface{}) interface{} { return v.(*gedcom.IndividualNode).IsLiving() }},
 	{"Birth", tIndi, vt{tDate, 0}, func(v interface{}) interface{} { d, _ := v.(*gedcom.IndividualNode).Birth(); return d }},
 	{"Death", tIndi, vt{tDate, 0}, func(v interface{}) interface{} { d, _ := v.(*gedcom.IndividualNode).Death(); return d }},
+	// accessors with a second result that is NOT an "ok" flag: the date is valid also when the flag is false
+	// (it then comes from a baptism / a burial)
+	{"EstimatedBirthDate", tIndi, vt{tDate, 0}, func(v interface{}) interface{} {
+		d, _ := v.(*gedcom.IndividualNode).EstimatedBirthDate()
+		return d
+	}},
+	{"EstimatedDeathDate", tIndi, vt{tDate, 0}, func(v interface{}) interface{} {
+		d, _ := v.(*gedcom.IndividualNode).EstimatedDeathDate()
+		return d
+	}},
 	{"Spouses", tIndi, vt{tIndi, 1}, func(v interface{}) interface{} { return indis(v.(*gedcom.IndividualNode).Spouses()) }},
 	{"Families", tIndi, vt{tFam, 1}, func(v interface{}) interface{} { return fams(v.(*gedcom.IndividualNode).Families()) }},
 	{"Parents", tIndi, vt{tFam, 1}, func(v interface{}) interface{} { return fams(v.(*gedcom.IndividualNode).Parents()) }},
@@ -561,7 +571,7 @@ var docTexts = map[string]string{
 		"0 @I2@ INDI\n1 NAME Bob /Birch/\n1 NAME Robert /Birch/\n1 SEX M\n1 BIRT\n2 DATE 2 Feb 1848\n1 DEAT Y\n1 FAMS @F1@\n" +
 		"0 @I3@ INDI\n1 NAME Cy /Birch/\n1 BIRT\n2 DATE 3 Mar 1875\n1 DEAT\n2 DATE 1950\n1 FAMC @F1@\n0 @F1@ FAM\n1 HUSB @I2@\n1 WIFE @I1@\n1 CHIL @I3@\n",
 	"shared-spouse": "0 @I1@ INDI\n1 NAME Ann /Ash/\n1 BIRT\n2 DATE 1 Jan 1850\n1 DEAT Y\n1 FAMS @F1@\n0 @I2@ INDI\n1 NAME Bob /Birch/\n1 BIRT\n2 DATE 2 Feb 1848\n1 DEAT Y\n1 FAMS @F1@\n1 FAMS @F2@\n" +
-		"0 @I3@ INDI\n1 NAME Di /Dale/\n1 DEAT Y\n1 FAMS @F2@\n0 @F1@ FAM\n1 HUSB @I2@\n1 WIFE @I1@\n0 @F2@ FAM\n1 HUSB @I2@\n1 WIFE @I3@\n",
+		"0 @I3@ INDI\n1 NAME Di /Dale/\n1 BAPM\n2 DATE 7 Jul 1807\n1 DEAT Y\n1 BURI\n2 DATE 8 Aug 1888\n1 FAMS @F2@\n0 @F1@ FAM\n1 HUSB @I2@\n1 WIFE @I1@\n0 @F2@ FAM\n1 HUSB @I2@\n1 WIFE @I3@\n",
 	"numeric-names": "0 @I1@ INDI\n1 NAME 10 /9/\n1 DEAT Y\n0 @I2@ INDI\n1 NAME 9 /10/\n1 DEAT Y\n0 @I3@ INDI\n1 NAME  ann  /ASH/\n1 DEAT Y\n0 @I4@ INDI\n1 DEAT Y\n0 @F1@ FAM\n1 WIFE @I3@\n0 @F2@ FAM\n",
 }
 var docNames = []string{"empty", "one", "family", "shared-spouse", "numeric-names", "three-families"}
@@ -913,7 +923,7 @@ func main() {
 	vlib.Main(&vlib.Check{
 		ID:    "C16",
 		Level: "translation_validation",
-		Rule: "programs: every well-typed query of pipeline depth <=d (3 quick, 4 thorough) from a typed grammar over {Doc, Indi, Fam, role nodes, Name, Date, Node, string, number, bool, object} x list nesting: 34 accessors from a hand-written signature table, First/Last(0..4), Length, NodesWithTagPath (7 tag paths incl. a user-defined tag), Only over 7 accessor chains x 6 operators x numeric/text/mixed constants, 3 object constructions; plus variable forms (definition, a variable defined through another variable, unused definition) and Combine(V,V) / Combine(V,V)|Length on every program of depth <=2; plus variables evaluated per item (in Only conditions and object fields, through a second variable) and one parsed engine evaluated on every ordered pair/triple of documents (30 hand-written programs with Go closures as reference); plus the comparison table: every operator x every constant of a 36-operand set (signed, leading dot/zero/plus, exponent, numeric-looking text, both cases, empty; quoted and as number token) against all 36 operands as values; each rendered to text and evaluated by the real engine on 6 documents, and by the reference interpreter (Go closures calling the gedcom API directly: map over lists in order, prefix/suffix, len, order-preserving filter with the documented comparison rule, concatenation, gedcom.NodesWithTagPath, substitution for variables). " +
+		Rule: "programs: every well-typed query of pipeline depth <=d (3 quick, 4 thorough) from a typed grammar over {Doc, Indi, Fam, role nodes, Name, Date, Node, string, number, bool, object} x list nesting: 36 accessors from a hand-written signature table, First/Last(0..4), Length, NodesWithTagPath (7 tag paths incl. a user-defined tag), Only over 7 accessor chains x 6 operators x numeric/text/mixed constants, 3 object constructions; plus variable forms (definition, a variable defined through another variable, unused definition) and Combine(V,V) / Combine(V,V)|Length on every program of depth <=2; plus variables evaluated per item (in Only conditions and object fields, through a second variable) and one parsed engine evaluated on every ordered pair/triple of documents (30 hand-written programs with Go closures as reference); plus the comparison table: every operator x every constant of a 43-operand set (signed, leading dot/zero/plus, exponent, numeric-looking text, both cases, empty; quoted and as number token) against all 43 operands as values; each rendered to text and evaluated by the real engine on 6 documents, and by the reference interpreter (Go closures calling the gedcom API directly: map over lists in order, prefix/suffix, len, order-preserving filter with the documented comparison rule, concatenation, gedcom.NodesWithTagPath, substitution for variables). " +
 			"Non-trivial = (program with >=1 step, document) pairs where both sides produce a value and agree; distinct by (query text, document).",
 		Assumptions: []string{
 			"results are compared after JSON normalisation (what the json formatter prints); an empty list and null are the same 'nothing'",
